@@ -3,6 +3,7 @@ use crate::Args;
 
 pub mod c03;
 pub mod c04;
+pub mod c05;
 pub mod c10;
 pub mod c11;
 pub mod c12;
@@ -18,6 +19,7 @@ pub fn run(a: &Args) -> Report {
         "c19" => c19::run(a),
         "c10" => c10::run(a),
         "c04" => c04::run(a),
+        "c05" => c05::run(a),
         "c03" => c03::run(a),
         "c11" => c11::run(a),
         "c12" => c12::run(a),
